@@ -121,4 +121,48 @@ Section C05.
     assert (E : run_pass pc check consumes f c inst PNamed astate0 = Raise e) by exact He.
     rewrite E. cbn [Exn.bind fst snd]. split; eauto.
   Qed.
+
+  (* ... and what is raised is a PedanticException, when the checker raises nothing else and the class probe of type_vars
+     does not fail ('@staticmethod' in the text of a module-level function: K2) *)
+  Section Ped.
+    Hypothesis check_ped : forall a v tv e, fst (check a v tv) = Raise e -> is_pedantic e = true.
+
+    Lemma pass_named_unfilled_ped : forall f c inst ps, clazz_probe f c inst = Ok tt -> forall idx st,
+      should_have_kwargs pc f = true -> existsb (unfilled_param c) ps = true ->
+      exists e, pass_named pc check consumes f c inst ps idx st = Raise e /\ is_pedantic e = true.
+    Proof.
+      intros f c inst ps Hprobe. induction ps as [|p ps IH]; intros idx st Hs Hu; [discriminate|].
+      simpl in Hu. cbn [pass_named].
+      destruct (p_ann p) as [a|]; [|exists PTypeCheckC; split; reflexivity].
+      assert (Hchk : forall v s st1 (k : astate -> outcome astate), (forall st2, exists e, k st2 = Raise e /\ is_pedantic e = true) ->
+                exists e, Exn.bind (chk check consumes f c inst a v s st1) k = Raise e /\ is_pedantic e = true).
+      { intros v s st1 k Hk. unfold chk. rewrite Hprobe. destruct (check a v (a_tv st1)) as [[uu|e] tv'] eqn:Ec; simpl; [apply Hk|].
+        exists e. split; [reflexivity|]. eapply check_ped. rewrite Ec. reflexivity. }
+      apply orb_true_iff in Hu as [Hu|Hu].
+      - unfold unfilled_param in Hu. destruct (p_default p) as [d|]; [discriminate|].
+        apply negb_true_iff in Hu. unfold kw_names in Hu. rewrite (kw_get_none _ _ Hu), Hs. simpl. exists PTypeCheckC. split; reflexivity.
+      - destruct (kw_get (p_name p) (c_kwargs c)) as [v|]; [apply Hchk; intros st2; now apply IH|].
+        destruct (p_default p) as [d|]; [apply Hchk; intros st2; now apply IH|].
+        rewrite Hs. simpl. exists PTypeCheckC. split; reflexivity.
+    Qed.
+
+    Lemma unfilled_never_runs_ped : forall f c bd,
+      should_have_kwargs pc f = true -> some_required_unfilled f c = true ->
+      (forall inst, instance_of f c = Ok inst -> clazz_probe f c inst = Ok tt) ->
+      (is_instance_method f = true -> wargs c <> []) ->
+      exists e, run pc check consumes f c bd = (Raise e, []) /\ is_pedantic e = true.
+    Proof.
+      intros f c bd Hs Hu Hprobe Hinst. rewrite (run_is_ref pc check consumes good). unfold run_ref.
+      destruct (instance_of f c) as [inst|e] eqn:Ei.
+      - destruct (assert_uses_kwargs pc f c) as [u|e] eqn:Ea.
+        + rewrite (args_phase_ref pc check consumes good).
+          destruct (pass_named_unfilled_ped f c inst _ (Hprobe inst eq_refl) (if is_instance_method f then 1 else 0) astate0 Hs Hu) as [e [He Hp]].
+          assert (E : run_pass pc check consumes f c inst PNamed astate0 = Raise e) by exact He.
+          rewrite E. cbn [Exn.bind]. eauto.
+        + rewrite (assert_uses_kwargs_ref pc good) in Ea. destruct (should_have_kwargs pc f && _); inversion Ea; subst.
+          exists PCallWithArgsC. split; reflexivity.
+      - exfalso. unfold instance_of in Ei. destruct (is_instance_method f); [|discriminate].
+        destruct (wargs c); [now apply Hinst|discriminate].
+    Qed.
+  End Ped.
 End C05.
